@@ -352,7 +352,7 @@ def coerce(v, ty):
             return Val(ty, [v.terms[0]] + inner.terms)
         return mk_some(coerce(v, ty.inner))
     if isinstance(ty, TRef) and isinstance(v.ty, TRef):
-        return Val(ty, v.terms)
+        return v          # keep the more specific static class (view aliases depend on it)
     if isinstance(ty, TLSet) and isinstance(v.ty, TSet):
         return Val(ty, [v.t, z3.BoolVal(True)])
     if isinstance(ty, TBytes) and isinstance(v.ty, TStr):
